@@ -188,6 +188,7 @@ pub fn classify_plain(stage: &str, e: Error) -> Failure {
 
 /// Runs `f` as the public call `stage`: a panic becomes a `Failure`.
 pub fn call<T>(stage: &str, f: impl FnOnce() -> Result<T, Failure>) -> Result<T, Failure> {
+    crate::io_mon::set_stage(stage);
     match guarded(f) {
         Ok(r) => r,
         Err(p) => Err(Failure { stage: stage.to_string(), kind: FailKind::Panic(p) }),
